@@ -202,7 +202,7 @@ fn main() {
     if envs("MAYV_SCHED", "narrow") == "narrow" {
         cfg.sched_files = vec!["src/sync/sync_flag.rs", "src/sync/blocking.rs", "src/park.rs", "src/cancel.rs", "src/bin/s_flag.rs"];
     }
-    let stalls = std::env::var("MAYV_STALL").is_ok();
+    let stalls = std::env::var("MAYV_STALL").is_ok() || std::env::var("MAYV_STALL_AT").is_ok();
     let nact = envn("MAYV_ACTORS", 3) as usize;
     let nops = envn("MAYV_OPS", 3);
     let ctx_sel = envs("MAYV_CTX", "mix");
